@@ -7,21 +7,35 @@ drives the machine of `MJ/Model/Safe.lean`: the interpreter touches the machine 
 running `Step`s; control flow (loop counts, conditions, attribute lookups) reads the registers.
 It transcribes what `vm/mod.rs` does with the auto-escape mode and with captures:
 
-* `Emit` writes in the current mode; `{% autoescape x %}` = `derive_auto_escape` relative to the mode
-  the current instruction stream was entered with (`initMode`);
+* `Emit` writes in the current mode through the environment's formatter (`Environment::set_formatter`:
+  the default `escape_formatter`, or a wrapper that rewrites the value first — `Fmt`);
+  `{% autoescape x %}` = `derive_auto_escape` relative to the mode the current instruction stream was
+  entered with (`initMode`), for every documented value (`true`, `false`, `"html"`, `"json"`, `"none"`;
+  anything else is an error);
 * set-block / filter-block / `super()` / recursive `loop(…)` = `BeginCapture … end_capture(mode)`;
 * macro call, call block, `caller()` = fresh output … `Macro::call` tail (`macroReturn mode`) in the
-  mode of the *call site*;
-* include = the included template's body under `default_auto_escape_callback(name)`; blocks of the
-  inheritance chain run in the mode of the template being rendered;
-* the initial mode of the rendered template is `default_auto_escape_callback(main)`
-  (`autoEscapeOfName`, extension lists regenerated from `defaults.rs`).
+  mode of the *call site* — also for macros imported from a template whose name selects another mode;
+* `{% include %}` = the included template's top level under *its own* initial mode, writing into the
+  current target; `{% import t as m %}` / `{% from t import a as b %}` = the same inside a capture
+  (`import`: `Capture`, kept in the module object; `from`: `Discard`), exporting the variables the
+  imported template set at its top level (computed under the imported template's mode) and its macros;
+* `{% extends %}`: the child's statements outside blocks run with the output discarded (their `set`s,
+  imports and macros stay visible), then the parent's body runs in the mode of the rendered template;
+  blocks of the inheritance chain and `super()` run in the mode in effect at the block;
+* the initial mode of a template is what the auto-escape callback says for its name:
+  `default_auto_escape_callback` (`autoEscapeOfName`, extension lists regenerated from `defaults.rs`)
+  unless the program installs a custom callback (`Prog.modes`, `Environment::set_auto_escape_callback`);
+* entry points: `Template::render` (`execProg`), `Template::render_captured` + `State::render_block`
+  (`execBlock`), `Expression::eval` (`execExpr`: mode `None`, no output).
 
-With `strict := true` the interpreter refuses (returns `none`) to emit or apply a filter outside
-Html mode and to apply a filter that is not part of the safe-marking-free fragment (`safe`,
-`tojson`); everything else is identical.  Simplifications (the harness generator respects them):
-macro names are global and unique, only top-level `block`s take part in inheritance, statements
-outside blocks in a child template are not modelled.
+`Env.opaq` ("opaque") records that the innermost output target is a buffer whose text can never become a `Safe`
+string (discarded output, the capture of an `import`, a capture that will end in mode `None`).
+With `strict := true` the interpreter refuses (returns `none`) to write an expression outside Html mode
+unless the target is opaq, to enter Json mode, and to apply a filter that is not part of the
+safe-marking-free fragment (`safe`, `tojson`); everything else is identical.  Simplifications (the
+harness generator respects them): macro names are unique in a program (aliases and module prefixes are
+resolved), imports stand at the head of a template, only top-level `block`s take part in inheritance,
+an included or imported template does not extend another one.
 -/
 namespace MJ.Safe
 
@@ -50,6 +64,10 @@ inductive Expr where
   | list (xs : List Expr)
   | dict (kvs : List (String × Expr))
   | call (m : String) (args : List Expr)
+  /-- `alias.m(args…)` where `alias` names an imported module -/
+  | modCall (alias m : String) (args : List Expr)
+  /-- `alias.x`: a variable the imported template set at its top level -/
+  | modVar (alias x : String)
   | caller
   | super
   | loopRec (e : Expr)
@@ -80,16 +98,42 @@ structure MacroDef where
   body : List Stmt
   deriving Inhabited
 
+inductive ImportDecl where
+  /-- `{% import "tmpl" as alias %}` -/
+  | asModule (tmpl alias : String)
+  /-- `{% from "tmpl" import name as alias, … %}` (macros and top-level variables) -/
+  | names (tmpl : String) (ns : List (String × String))
+  deriving Inhabited
+
+def ImportDecl.tmpl : ImportDecl → String
+  | .asModule t _ => t
+  | .names t _ => t
+
+/-- source order: `extends`, imports, `pre` (top-level statements before the macro declarations),
+    macros, body -/
 structure Tmpl where
   name : String
   parent : Option String
+  imports : List ImportDecl := []
+  pre : List Stmt := []
   macros : List MacroDef
   body : List Stmt
   deriving Inhabited
 
+/-- `Environment::set_formatter`: the default formatter, or the documented wrapper that hands
+    `escape_formatter` an undefined value in place of `none` -/
+inductive Fmt where
+  | default
+  | noneAsUndef
+  deriving Repr, DecidableEq, Inhabited
+
 structure Prog where
   templates : List Tmpl
   main : String
+  /-- `Environment::set_auto_escape_callback`: the names the custom callback decides (all other names
+      as `default_auto_escape_callback` does) -/
+  modes : List (String × Mode) := []
+  fmt : Fmt := .default
   deriving Inhabited
 
 /-- context values handed in by the host: plain data, nothing marked -/
@@ -144,6 +188,9 @@ def autoEscapeOfName (name : String) : Mode :=
   else if Gen.c02AutoEscapeJsonExts.any (·.toList == ext) then .json
   else .none
 
+/-- `Environment::initial_auto_escape(name)`: the installed callback -/
+def modeOf (p : Prog) (name : String) : Mode := (p.modes.lookup name).getD (autoEscapeOfName name)
+
 /-- `derive_auto_escape(value, initial_auto_escape)` -/
 def deriveAutoEscape (a : AutoArg) (init : Mode) : Option Mode :=
   match a with
@@ -176,35 +223,86 @@ def stepM (s : Step) : M Unit := fun st => (s.run st).map fun st' => ((), st')
 def pushM (s : Step) : M Nat := fun st => (s.run st).map fun st' => (st'.pool.size - 1, st')
 def readM (i : Nat) : M V := fun st => (st.pool[i]?).map fun v => (v, st)
 
+/-- the body of a call block with the scope it was written in -/
+structure CallerCl where
+  body : List Stmt
+  vars : List (String × Nat)
+  macros : List (String × String)
+  mods : List (String × String)
+
 structure Env where
   mode : Mode
   initMode : Mode
+  /-- the innermost output target is a buffer whose text never becomes a `Safe` string -/
+  opaq : Bool := false
   vars : List (String × Nat)
   globals : List (String × Nat)
   prog : Prog
-  caller : Option (List Stmt × List (String × Nat))
+  /-- visible macros: local name ↦ the (program-wide unique) name of the macro -/
+  macros : List (String × String) := []
+  /-- visible modules: alias ↦ template name -/
+  mods : List (String × String) := []
+  /-- the variables the templates loaded so far set at their top level -/
+  tvars : List (String × List (String × Nat)) := []
+  caller : Option CallerCl
   loopIdx : Option Nat
   recLoop : Option (String × List Stmt)
   supers : List (List Stmt)
   chains : List (String × List (List Stmt))
+  /-- `CallBlock` does nothing: the template extends another one / the output is being discarded -/
+  skipBlocks : Bool := false
 
-/-- `Emit`, guarded in strict mode -/
+/-- the rewriting a custom formatter applies before it calls `escape_formatter` -/
+def fmtPreF : Fn
+  | [.none] => some .undef
+  | [v] => some v
+  | _ => Option.none
+
+/-- may an expression be written here?  Html escapes; an opaq target never becomes `Safe` -/
+def Env.writable (env : Env) : Bool := env.mode == .html || (env.mode == .none && env.opaq)
+
+/-- `Emit` through `Environment::format`, guarded in strict mode -/
 def emitG (strict : Bool) (env : Env) (r : Nat) : M Unit :=
-  if strict && env.mode != .html then failM else stepM (.emit env.mode r)
+  if strict && !env.writable then failM
+  else match env.prog.fmt with
+    | .default => stepM (.emit env.mode r)
+    | .noneAsUndef => do
+      let r' ← pushM (.apply fmtPreF [r])
+      stepM (.emit env.mode r')
 
 /-- filter application, guarded in strict mode -/
 def applyG (strict : Bool) (env : Env) (g : Fn) (ok : Bool) (rs : List Nat) : M Nat :=
-  if strict && (!ok || env.mode != .html) then failM else pushM (.apply g rs)
+  if strict && (!ok || env.mode == .json) then failM else pushM (.apply g rs)
 
 def applyNamed (strict : Bool) (env : Env) (name : String) (ps : List Nat) (rs : List Nat) : M Nat :=
   match lookupF name env.mode ps with
   | Option.none => failM
   | some (g, ok) => applyG strict env g ok rs
 
-def findMacro (p : Prog) (name : String) : Option MacroDef :=
-  (p.templates.flatMap (·.macros)).find? (·.name == name)
-
 def findTmpl (p : Prog) (name : String) : Option Tmpl := p.templates.find? (·.name == name)
+
+/-- the template that declares the macro (macro names are unique in a program) and its declaration -/
+def findMacro (p : Prog) (name : String) : Option (Tmpl × MacroDef) :=
+  p.templates.findSome? fun t => (t.macros.find? (·.name == name)).map fun md => (t, md)
+
+def tmplHasMacro (p : Prog) (tmpl name : String) : Bool :=
+  match findTmpl p tmpl with
+  | some t => t.macros.any (·.name == name)
+  | Option.none => false
+
+/-- macros a template sees: its own and the ones its `from … import` names -/
+def importMacros (p : Prog) : List ImportDecl → List (String × String)
+  | [] => []
+  | .asModule _ _ :: rest => importMacros p rest
+  | .names t ns :: rest => (ns.filter fun na => tmplHasMacro p t na.1).map (fun na => (na.2, na.1)) ++ importMacros p rest
+
+def scopeMacros (p : Prog) (t : Tmpl) : List (String × String) :=
+  t.macros.map (fun md => (md.name, md.name)) ++ importMacros p t.imports
+
+def scopeMods : List ImportDecl → List (String × String)
+  | [] => []
+  | .asModule t a :: rest => (a, t) :: scopeMods rest
+  | .names _ _ :: rest => scopeMods rest
 
 def lookupVar (env : Env) (n : String) : Option Nat :=
   match env.vars.lookup n with
@@ -234,9 +332,45 @@ def seqLen : V → Nat
   | .seq xs => xs.length
   | _ => 0
 
-/-- environment of a macro / call-block body -/
-def Env.forMacro (env : Env) (vars : List (String × Nat)) (caller : Option (List Stmt × List (String × Nat))) : Env :=
-  { env with vars := vars, caller := caller, loopIdx := Option.none, recLoop := Option.none, supers := [], initMode := env.mode }
+/-- a capture that begins here ends in the current mode: its text becomes `Safe` iff that is not `None` -/
+def Env.inCapture (env : Env) : Env := { env with opaq := env.mode != .html }
+
+/-- environment of a macro body: parameters, the variables its template had set at its top level
+    (closure), the macros and modules its template sees; mode of the call site -/
+def Env.forMacro (env : Env) (home : Tmpl) (params : List (String × Nat)) (caller : Option CallerCl) : Env :=
+  { env with vars := params ++ (env.tvars.lookup home.name).getD [], macros := scopeMacros env.prog home,
+             mods := scopeMods home.imports, caller := caller, loopIdx := Option.none, recLoop := Option.none,
+             supers := [], initMode := env.mode, opaq := env.mode != .html, skipBlocks := false }
+
+/-- environment of a call-block body run by `caller()`: the scope it was written in -/
+def Env.forCaller (env : Env) (c : CallerCl) : Env :=
+  { env with vars := c.vars, macros := c.macros, mods := c.mods, caller := Option.none, loopIdx := Option.none,
+             recLoop := Option.none, supers := [], initMode := env.mode, opaq := env.mode != .html, skipBlocks := false }
+
+/-- environment of the parent block run by `super()` (inside the capture of the call) -/
+def Env.forSuper (env : Env) (rest : List (List Stmt)) : Env :=
+  { env.inCapture with supers := rest, initMode := env.mode, loopIdx := Option.none, recLoop := Option.none }
+
+/-- the module object of `{% import %}`: an object whose `render` writes the captured text -/
+def moduleObjF : Fn
+  | [v] => some (.obj v.display)
+  | _ => Option.none
+
+/-- what a loaded template exports: the variables set at its top level -/
+abbrev TVars := List (String × List (String × Nat))
+
+/-- bind the names of a `from … import`: variables the template exported (macros are resolved
+    statically by `importMacros`; a name that is neither is undefined) -/
+def bindImported (p : Prog) (tmpl : String) (exported : List (String × Nat)) : List (String × String) → M (List (String × Nat))
+  | [] => pure []
+  | (n, a) :: rest => do
+    let more ← bindImported p tmpl exported rest
+    if tmplHasMacro p tmpl n then pure more
+    else match exported.lookup n with
+      | some r => pure ((a, r) :: more)
+      | Option.none => do
+        let r ← pushM .undef
+        pure ((a, r) :: more)
 
 mutual
 def evalExpr (strict : Bool) : Nat → Env → Expr → M Nat
@@ -290,27 +424,33 @@ def evalExpr (strict : Bool) : Nat → Env → Expr → M Nat
       let kis ← evalKVs strict fuel env kvs
       pushM (.mkMap kis)
     | .call m args =>
-      match findMacro env.prog m with
+      match env.macros.lookup m with
       | Option.none => failM
-      | some md => do
-        let rs ← evalArgs strict fuel env args
-        let vars ← bindParams md.params rs
-        stepM .beginCapture
-        let _ ← execStmts strict fuel (env.forMacro vars Option.none) md.body
-        pushM (.macroReturn env.mode)
+      | some g => callMacro strict fuel env g args Option.none
+    | .modCall alias m args =>
+      match env.mods.lookup alias with
+      | Option.none => failM
+      | some tn => if tmplHasMacro env.prog tn m then callMacro strict fuel env m args Option.none else failM
+    | .modVar alias x =>
+      match env.mods.lookup alias with
+      | Option.none => failM
+      | some tn =>
+        match ((env.tvars.lookup tn).getD []).lookup x with
+        | some r => pure r
+        | Option.none => pushM .undef
     | .caller =>
       match env.caller with
       | Option.none => failM
-      | some (body, vars) => do
+      | some c => do
         stepM .beginCapture
-        let _ ← execStmts strict fuel (env.forMacro vars Option.none) body
+        let _ ← execStmts strict fuel (env.forCaller c) c.body
         pushM (.macroReturn env.mode)
     | .super =>
       match env.supers with
       | [] => failM
       | b :: rest => do
         stepM .beginCapture
-        let _ ← execStmts strict fuel { env with supers := rest, initMode := env.mode, loopIdx := Option.none, recLoop := Option.none } b
+        let _ ← execStmts strict fuel (env.forSuper rest) b
         pushM (.endCapture env.mode)
     | .loopRec e =>
       match env.recLoop with
@@ -320,7 +460,7 @@ def evalExpr (strict : Bool) : Nat → Env → Expr → M Nat
         stepM .beginCapture
         let r' ← applyG strict env charsF true [r]
         let items ← readM r'
-        forLoop strict fuel env v body r' 0 (seqLen items)
+        forLoop strict fuel env.inCapture v body r' 0 (seqLen items)
         pushM (.endCapture env.mode)
     | .loopIndex =>
       match env.loopIdx with
@@ -338,6 +478,19 @@ def evalExpr (strict : Bool) : Nat → Env → Expr → M Nat
       let rc ← evalExpr strict fuel env c
       let v ← readM rc
       if truthy v then evalExpr strict fuel env a else evalExpr strict fuel env b
+
+/-- `Macro::call`: arguments, fresh output, body in the mode of the call site, result marked by that mode -/
+def callMacro (strict : Bool) : Nat → Env → String → List Expr → Option CallerCl → M Nat
+  | 0, _, _, _, _ => failM
+  | fuel + 1, env, g, args, caller =>
+    match findMacro env.prog g with
+    | Option.none => failM
+    | some (home, md) => do
+      let rs ← evalArgs strict fuel env args
+      let params ← bindParams md.params rs
+      stepM .beginCapture
+      let _ ← execStmts strict fuel (env.forMacro home params caller) md.body
+      pushM (.macroReturn env.mode)
 
 def evalArgs (strict : Bool) : Nat → Env → List Expr → M (List Nat)
   | 0, _, _ => failM
@@ -389,7 +542,7 @@ def execStmt (strict : Bool) : Nat → Env → Stmt → M (List (String × Nat))
       pure ((n, r) :: env.vars)
     | .setBlock n filt body => do
       stepM .beginCapture
-      let _ ← execStmts strict fuel env body
+      let _ ← execStmts strict fuel env.inCapture body
       let r ← pushM (.endCapture env.mode)
       match filt with
       | Option.none => pure ((n, r) :: env.vars)
@@ -398,7 +551,7 @@ def execStmt (strict : Bool) : Nat → Env → Stmt → M (List (String × Nat))
         pure ((n, r2) :: env.vars)
     | .filterBlock name ps body => do
       stepM .beginCapture
-      let _ ← execStmts strict fuel env body
+      let _ ← execStmts strict fuel env.inCapture body
       let r ← pushM (.endCapture env.mode)
       let r2 ← applyNamed strict env name ps [r]
       emitG strict env r2
@@ -423,14 +576,10 @@ def execStmt (strict : Bool) : Nat → Env → Stmt → M (List (String × Nat))
       let _ ← execStmts strict fuel { env with vars := (n, r) :: env.vars } body
       pure env.vars
     | .callBlock m args body =>
-      match findMacro env.prog m with
+      match env.macros.lookup m with
       | Option.none => failM
-      | some md => do
-        let rs ← evalArgs strict fuel env args
-        let vars ← bindParams md.params rs
-        stepM .beginCapture
-        let _ ← execStmts strict fuel (env.forMacro vars (some (body, env.vars))) md.body
-        let r ← pushM (.macroReturn env.mode)
+      | some g => do
+        let r ← callMacro strict fuel env g args (some { body := body, vars := env.vars, macros := env.macros, mods := env.mods })
         emitG strict env r
         pure env.vars
     | .incl name =>
@@ -438,10 +587,10 @@ def execStmt (strict : Bool) : Nat → Env → Stmt → M (List (String × Nat))
       | Option.none => failM
       | some t =>
         if t.parent.isSome then failM else do
-          let m := autoEscapeOfName name
-          let _ ← execStmts strict fuel { env with mode := m, initMode := m, loopIdx := Option.none, recLoop := Option.none, caller := Option.none, supers := [], chains := [] } t.body
+          let _ ← runTop strict fuel { env with loopIdx := Option.none, recLoop := Option.none, caller := Option.none, supers := [], chains := [], skipBlocks := false } t (modeOf env.prog name)
           pure env.vars
     | .block name dflt =>
+      if env.skipBlocks then pure env.vars else
       match (env.chains.lookup name).getD [dflt] with
       | [] => pure env.vars
       | b :: rest => do
@@ -450,9 +599,50 @@ def execStmt (strict : Bool) : Nat → Env → Stmt → M (List (String × Nat))
     | .auto a body =>
       match deriveAutoEscape a env.initMode with
       | Option.none => failM
-      | some m => do
-        let vars ← execStmts strict fuel { env with mode := m } body
-        pure vars
+      | some m =>
+        if strict && m == .json then failM else do
+          let vars ← execStmts strict fuel { env with mode := m } body
+          pure vars
+
+/-- the top level of a template in mode `m` (its own initial mode when it is included or imported,
+    the mode of the rendered template when it is part of an inheritance chain), in the scope it is
+    loaded into: imports, statements, body (macro declarations are resolved statically).  Returns the
+    variables visible afterwards and the table of template-level variables. -/
+def runTop (strict : Bool) : Nat → Env → Tmpl → Mode → M (List (String × Nat) × TVars)
+  | 0, _, _, _ => failM
+  | fuel + 1, env, t, m =>
+    if strict && m == .json then failM else do
+      let env0 : Env := { env with mode := m, initMode := m, macros := scopeMacros env.prog t ++ env.macros,
+                                   mods := scopeMods t.imports ++ env.mods }
+      let l1 ← loadImports strict fuel env0 t.imports
+      let vars2 ← execStmts strict fuel { env0 with vars := l1.1, tvars := l1.2 } t.pre
+      let vars3 ← execStmts strict fuel { env0 with vars := vars2, tvars := (t.name, vars2) :: l1.2 } t.body
+      pure (vars3, (t.name, vars3) :: l1.2)
+
+/-- `{% import %}` / `{% from … import %}` statements at the head of a template, in order -/
+def loadImports (strict : Bool) : Nat → Env → List ImportDecl → M (List (String × Nat) × TVars)
+  | 0, _, _ => failM
+  | _ + 1, env, [] => pure (env.vars, env.tvars)
+  | fuel + 1, env, d :: rest =>
+    match findTmpl env.prog d.tmpl with
+    | Option.none => failM
+    | some t =>
+      if t.parent.isSome then failM else do
+        -- `BeginCapture(Capture | Discard); PushWith; Include; EndCapture; ExportLocals; PopFrame`
+        stepM .beginCapture
+        let l ← runTop strict fuel { env with opaq := true, loopIdx := Option.none, recLoop := Option.none, caller := Option.none,
+                                              supers := [], chains := [], skipBlocks := false } t (modeOf env.prog d.tmpl)
+        -- the Safe bit `end_capture` puts on the captured text is never read: `Module::render` writes its
+        -- Display into the text of the module object (discarded altogether by `from … import`)
+        let rc ← pushM (.endCapture .none)
+        let exported := l.1.take (l.1.length - env.vars.length)
+        match d with
+        | .asModule _ alias => do
+          let ro ← pushM (.apply moduleObjF [rc])
+          loadImports strict fuel { env with vars := (alias, ro) :: env.vars, tvars := l.2 } rest
+        | .names _ ns => do
+          let bound ← bindImported env.prog d.tmpl exported ns
+          loadImports strict fuel { env with vars := bound ++ env.vars, tvars := l.2 } rest
 end
 
 /-! ## whole programs -/
@@ -494,19 +684,74 @@ def pushCtx : List (String × CV) → M (List (String × Nat))
 
 def defaultFuel : Nat := 100000
 
-/-- render `p.main` with context `ctx` -/
-def execProgM (strict : Bool) (fuel : Nat) (p : Prog) (ctx : List (String × CV)) : M Unit := do
+/-- the templates of an inheritance chain below the root, most derived first: their top level runs
+    with the output discarded (`LoadBlocks` begins a discarding capture) and with `CallBlock` disabled;
+    what they set, import and declare stays visible -/
+def runChainHeads (strict : Bool) (fuel : Nat) : Env → List Tmpl → M Env
+  | env, [] => pure env
+  | env, t :: rest => do
+    stepM .beginCapture
+    let l ← runTop strict fuel { env with opaq := true, skipBlocks := true } t env.mode
+    let _ ← pushM (.endCapture .none)
+    let env' : Env := { env with vars := l.1, tvars := l.2, macros := scopeMacros env.prog t ++ env.macros,
+                                 mods := scopeMods t.imports ++ env.mods }
+    runChainHeads strict fuel env' rest
+
+def baseEnv (p : Prog) (globals : List (String × Nat)) (chain : List Tmpl) : Env :=
+  let m := modeOf p p.main
+  { mode := m, initMode := m, vars := [], globals := globals, prog := p, caller := Option.none, loopIdx := Option.none,
+    recLoop := Option.none, supers := [], chains := buildChains chain }
+
+/-- render `p.main` with context `ctx`; returns the scope the render left behind -/
+def renderMainM (strict : Bool) (fuel : Nat) (p : Prog) (ctx : List (String × CV)) : M Env := do
   let chain := inheritChain p (p.templates.length + 1) p.main
   match chain.getLast? with
   | Option.none => failM
   | some base =>
     let globals ← pushCtx ctx
-    let m := autoEscapeOfName p.main
-    let env : Env := { mode := m, initMode := m, vars := [], globals := globals, prog := p, caller := Option.none, loopIdx := Option.none, recLoop := Option.none, supers := [], chains := buildChains chain }
-    let _ ← execStmts strict fuel env base.body
-    pure ()
+    let m := modeOf p p.main
+    if strict && m != .html then failM else do
+      let env ← runChainHeads strict fuel (baseEnv p globals chain) chain.dropLast
+      -- the root of the chain runs in the mode of the rendered template, its blocks dispatch through the chain
+      let l ← runTop strict fuel env base env.mode
+      let env' : Env := { env with vars := l.1, tvars := l.2, macros := scopeMacros p base ++ env.macros,
+                                   mods := scopeMods base.imports ++ env.mods }
+      pure env'
+
+/-- `Template::render` -/
+def execProgM (strict : Bool) (fuel : Nat) (p : Prog) (ctx : List (String × CV)) : M Unit := do
+  let _ ← renderMainM strict fuel p ctx
+  pure ()
 
 def execProg (strict : Bool) (p : Prog) (ctx : List (String × CV)) : Option St :=
   (execProgM strict defaultFuel p ctx {}).map (·.2)
+
+/-- `Template::render_captured(ctx)` followed by `State::render_block(name)` on the captured state:
+    the template is rendered (its output is `Captured::output`), then the block is called in the mode the
+    render ended with (the template's initial mode) with the variables it left behind.  The model output
+    is the rendered text followed by the block's text. -/
+def execBlockM (strict : Bool) (fuel : Nat) (p : Prog) (blockName : String) (ctx : List (String × CV)) : M Unit := do
+  let env ← renderMainM strict fuel p ctx
+  if (env.chains.lookup blockName).isNone then failM else do
+    let _ ← execStmt strict fuel env (.block blockName [])
+    pure ()
+
+def execBlock (strict : Bool) (p : Prog) (blockName : String) (ctx : List (String × CV)) : Option St :=
+  (execBlockM strict defaultFuel p blockName ctx {}).map (·.2)
+
+/-- the environment of an expression: no template, mode `None` -/
+def exprEnv (globals : List (String × Nat)) : Env :=
+  { mode := .none, initMode := .none, vars := [], globals := globals, prog := { templates := [], main := "" },
+    caller := Option.none, loopIdx := Option.none, recLoop := Option.none, supers := [], chains := [] }
+
+/-- `Expression::eval`: no template, mode `None`, the null output; the value is the last register -/
+def execExprM (strict : Bool) (fuel : Nat) (e : Expr) (ctx : List (String × CV)) : M Nat := do
+  let globals ← pushCtx ctx
+  evalExpr strict fuel (exprEnv globals) e
+
+def execExpr (strict : Bool) (e : Expr) (ctx : List (String × CV)) : Option (V × St) :=
+  match execExprM strict defaultFuel e ctx {} with
+  | some (r, st) => (st.pool[r]?).map fun v => (v, st)
+  | Option.none => Option.none
 
 end MJ.Safe
